@@ -85,6 +85,12 @@ static void op_x509(int inst, out_t *o) { cert_spec ca, lf; spec_ca(&ca, "R", -1
 static void op_cms(int inst, out_t *o) { cert_spec s; char cn[8]; snprintf(cn, sizeof cn, "s%d", inst); spec_leaf(&s, cn, X509_KU_DIGITAL_SIGNATURE); uint8_t sc[1024]; size_t scl = 0; make_cert(&s, &CK[2], &CK[5], "R", sc, &scl); CMS_CERTS_AND_KEY sg = { sc, scl, &CK[2] }; uint8_t *cms = (uint8_t *)malloc(4096); size_t n = 0; o->rc += cms_sign(cms, &n, &sg, 1, OID_cms_data, MSG, 64 + inst, NULL, 0); mix(o, cms, n);
 	int ct; const uint8_t *c, *certs, *crls, *sis; size_t cl, certl, crll, sil; cert_spec ca; spec_ca(&ca, "R", -1); uint8_t root[1024]; size_t rl = 0; make_cert(&ca, &CK[5], &CK[5], "R", root, &rl); o->rc += 10 * cms_verify(cms, n, NULL, 0, root, rl, &ct, &c, &cl, &certs, &certl, &crls, &crll, &sis, &sil);
 	uint8_t k[16] = { 1, 2, 3, 4, 5, 6, 7, 8, 9, 10, 11, 12, 13, 14, 15, 16 }, iv[16] = { 7 }; n = 0; o->rc += cms_encrypt(cms, &n, OID_sm4_cbc, k, 16, iv, 16, OID_cms_data, MSG, 40, NULL, 0, NULL, 0); mix(o, cms, n); uint8_t out[200]; size_t ol = 0; int alg; const uint8_t *s1, *s2; size_t s1l, s2l; o->rc += cms_decrypt(cms, n, &alg, k, 16, &ct, out, &ol, &s1, &s1l, &s2, &s2l); mix(o, out, ol); free(cms); }
+/* enveloped and signed-and-enveloped messages, each instance with its own recipient certificate, signer certificate, content and buffers */
+static void op_cmsenv(int inst, out_t *o) { cert_spec s; char cn[8]; snprintf(cn, sizeof cn, "r%d", inst); spec_leaf(&s, cn, X509_KU_KEY_ENCIPHERMENT); uint8_t rc[1024], sc[1024]; size_t rcl = 0, scl = 0; make_cert(&s, &CK[inst % 4], &CK[5], "R", rc, &rcl); snprintf(cn, sizeof cn, "g%d", inst); spec_leaf(&s, cn, X509_KU_DIGITAL_SIGNATURE); make_cert(&s, &CK[(inst + 1) % 4], &CK[5], "R", sc, &scl);
+	uint8_t *cms = (uint8_t *)malloc(8192), *out = (uint8_t *)malloc(512); size_t n = 0, ol = 0; uint8_t k[16], iv[16]; memset(k, 0x21 + inst, 16); memset(iv, 0x33, 16); int ct; const uint8_t *ri, *si, *sce, *scr, *s1, *s2; size_t ril, sil, scel, scrl, s1l, s2l;
+	o->rc += cms_envelop(cms, &n, rc, rcl, OID_sm4_cbc, k, 16, iv, 16, OID_cms_data, MSG + inst, 90 + inst, NULL, 0, NULL, 0); o->rc += 10 * cms_deenvelop(cms, n, &CK[inst % 4], rc, rcl, &ct, out, &ol, &ri, &ril, &s1, &s1l, &s2, &s2l); mix(o, out, ol < 512 ? ol : 0);
+	CMS_CERTS_AND_KEY sg = { sc, scl, &CK[(inst + 1) % 4] }; n = 0; ol = 0; o->rc += 100 * cms_sign_and_envelop(cms, &n, &sg, 1, rc, rcl, OID_sm4_cbc, k, 16, iv, 16, OID_cms_data, MSG + inst, 70 + inst, NULL, 0, NULL, 0, NULL, 0);
+	o->rc += 1000 * cms_deenvelop_and_verify(cms, n, &CK[inst % 4], rc, rcl, NULL, 0, NULL, 0, &ct, out, &ol, &ri, &ril, &si, &sil, &sce, &scel, &scr, &scrl, &s1, &s1l, &s2, &s2l); mix(o, out, ol < 512 ? ol : 0); free(cms); free(out); }
 static void op_pkcs8(int inst, out_t *o) { uint8_t b[600], *p = b; size_t l = 0; o->rc += sm2_private_key_info_encrypt_to_der(&CK[inst % 4], "password", &p, &l); mix(o, b, l); SM2_KEY k; const uint8_t *cp = b, *at; size_t rem = l, al; o->rc += sm2_private_key_info_decrypt_from_der(&k, &at, &al, "password", &cp, &rem); uint8_t d[32]; sm2_z256_to_bytes(k.private_key, d); mix(o, d, 32); cp = b; rem = l; o->rc += 10 * (sm2_private_key_info_decrypt_from_der(&k, &at, &al, "wrong", &cp, &rem) == 1); }
 static void op_record(int inst, out_t *o) { uint8_t key[16], mk[32], seq[8] = { 0, 0, 0, 0, 0, 0, 0, (uint8_t)inst }, hdr[5] = { 23, 1, 1, 0, 100 }; memset(key, 0x61 + inst, 16); memset(mk, 0x62, 32); SM4_KEY ek, dk; sm4_set_encrypt_key(&ek, key); sm4_set_decrypt_key(&dk, key); SM3_HMAC_CTX h; sm3_hmac_init(&h, mk, 32); uint8_t out[400], back[400]; size_t ol = 0, bl = 0; o->rc += tls_cbc_encrypt(&h, &ek, seq, hdr, MSG, 100, out, &ol); mix(o, out, ol); hdr[3] = (uint8_t)(ol >> 8); hdr[4] = (uint8_t)ol; o->rc += tls_cbc_decrypt(&h, &dk, seq, hdr, out, ol, back, &bl); mix(o, back, bl);
 	BLOCK_CIPHER_KEY bk; block_cipher_set_encrypt_key(&bk, BLOCK_CIPHER_sm4(), key); uint8_t iv[12] = { 9 }; o->rc += tls13_gcm_encrypt(&bk, iv, seq, 23, MSG, 90, 3, out, &ol); mix(o, out, ol); int rt; o->rc += tls13_gcm_decrypt(&bk, iv, seq, out, ol, &rt, back, &bl); mix(o, back, bl); }
@@ -118,7 +124,7 @@ static void op_names(int inst, out_t *o) {
 	fclose(fp); mix(o, t, tl); free(t); }
 /* handshake: two tasks */
 #include "tlsh_min.h"
-static struct { const char *name; op_f f; int pair; } OPS[] = { { "hash", op_hash, 0 }, { "hmac-kdf", op_hmac, 0 }, { "sm4-modes", op_sm4, 0 }, { "zuc", op_zuc, 0 }, { "sm2-keygen-sign-verify", op_sm2sign, 0 }, { "sm2-encrypt-ecdh", op_sm2enc, 0 }, { "x509-sign-verify", op_x509, 0 }, { "cms-sign-encrypt", op_cms, 0 }, { "tls-record", op_record, 0 }, { "decode-malformed", op_decode_bad, 0 }, { "sm9-sign-verify", op_sm9, 0 }, { "pkcs8-encrypt", op_pkcs8, 0 }, { "misc-interfaces", op_misc, 0 }, { "names-and-printers", op_names, 0 },
+static struct { const char *name; op_f f; int pair; } OPS[] = { { "hash", op_hash, 0 }, { "hmac-kdf", op_hmac, 0 }, { "sm4-modes", op_sm4, 0 }, { "zuc", op_zuc, 0 }, { "sm2-keygen-sign-verify", op_sm2sign, 0 }, { "sm2-encrypt-ecdh", op_sm2enc, 0 }, { "x509-sign-verify", op_x509, 0 }, { "cms-sign-encrypt", op_cms, 0 }, { "cms-envelop", op_cmsenv, 0 }, { "tls-record", op_record, 0 }, { "decode-malformed", op_decode_bad, 0 }, { "sm9-sign-verify", op_sm9, 0 }, { "pkcs8-encrypt", op_pkcs8, 0 }, { "misc-interfaces", op_misc, 0 }, { "names-and-printers", op_names, 0 },
 	{ "handshake-tlcp", NULL, 1 }, { "handshake-tls12", NULL, 2 }, { "handshake-tls13", NULL, 3 } };
 #define NOPS ((int)(sizeof OPS / sizeof OPS[0]))
 
@@ -199,7 +205,7 @@ static void combo_name(char *b, size_t n) { b[0] = 0; for (int t = 0; t < NT; t+
 static void explore_combo(int bound) {
 	char cn[200]; combo_name(cn, sizeof cn);
 	/* sequential references: each plain task alone; a handshake pair together (client, server) in the default schedule */
-	{ NNEWW = 0; int nt = NT; task_t save[MAXT]; __real_memcpy(save, TASK, sizeof save); out_t ref[MAXT]; for (int t = 0; t < nt; ) { int span = save[t].role ? 2 : 1; NT = span; for (int i = 0; i < span; i++) TASK[i] = save[t + i]; USE_W = 0; run_schedule(NULL, 0); if (CRASHED) vh_harness_error("reference run crashed"); for (int i = 0; i < span; i++) ref[t + i] = OUT[i]; t += span; } NT = nt; __real_memcpy(TASK, save, sizeof save); __real_memcpy(REF, ref, sizeof ref); }
+	{ NNEWW = 0; int nt = NT; task_t save[MAXT]; __real_memcpy(save, TASK, sizeof save); out_t ref[MAXT]; for (int t = 0; t < nt; ) { int span = save[t].role ? 2 : 1; NT = span; for (int i = 0; i < span; i++) TASK[i] = save[t + i]; USE_W = 0; run_schedule(NULL, 0); if (CRASHED) vh_harness_error("reference run crashed"); for (int i = 0; i < span; i++) { ref[t + i] = OUT[i]; if (!strcmp(OPS[save[t + i].op].name, "cms-envelop") && OUT[i].rc != 1111) vh_harness_error("cms-envelop reference run: rc=%d (expected all four calls to succeed)", OUT[i].rc); } t += span; } NT = nt; __real_memcpy(TASK, save, sizeof save); __real_memcpy(REF, ref, sizeof ref); }
 	int restarts = 0; NW = 0; W_DIRTY = 1; /* conflict / static-write granules seen during the reference runs stay pending and are reported with the first schedule */
 restart:
 	USE_W = 1; typedef struct { uint8_t *p; int n, pre; } item; static item *stack; if (!stack) stack = (item *)malloc(sizeof(item) * 2000000); int sp = 0; stack[sp++] = (item){ NULL, 0, 0 }; uint64_t sched_here = 0; NOUTC = 0;
